@@ -6,7 +6,7 @@ from areas.replfetcher import scenarios_from
 PROPS = ["C03", "C04", "C07"]
 PACKAGES = ["drv_net"]
 _note = ("trusted: TLC; the driver's construction of real records from abstract attributes (real ed25519/BLS signatures, real msgpack encodings) and its decoding of stored content; "
-         "the payment contract is a local JSON-RPC stub answering verifyPayment; every store command is served at once and disk writes are settled before the next delivery (sequential semantics)")
+         "the payment contract is a local JSON-RPC stub answering verifyPayment with per-quote verdicts (or failing: JSON-RPC error, HTTP 500, empty / short result, closed socket) and recording the calldata it receives, which is compared with the quote hashes (own Keccak-256), metrics words and rewards addresses the driver computes from the proof; every store command is served at once and disk writes are settled before the next delivery (sequential semantics)")
 META = {
     "C03": {"engine": "nodeput", "level": "model_checking",
             "technique": "executable TLA+ specification of the admission rules; TLC enumerates every combination of the six payment conditions x kind x key x held and is the oracle over deliveries executed on the real node (trace validation)",
@@ -24,6 +24,13 @@ META = {
             "note": _note + "; concurrent processing: every interleaving of the read / write sections of two replicated deliveries for one address (NodePutConc)", "design_ref": "5 Area NodePut"},
 }
 PREFIX = {"C03": ("C03_",), "C04": ("C04_",), "C07": ("C07_",)}
+
+
+def plain_pay(d):
+    """the delivery's proof has the plain layout (three payees, own quote first, contract all-valid / all-invalid)"""
+    p = d.get("pay")
+    return not isinstance(p, dict) or (p.get("mode", "ok") in ("ok", "allBad") and p.get("pos", "std") == "std" and p.get("shape", "std") == "std"
+                                       and p.get("edge", "std") == "std" and p.get("selfIdx", 0) == 0)
 
 
 def concurrent_part(v, w):
@@ -88,7 +95,10 @@ def run(prop, tier, replay=None):
         if prop == "C07":
             # every sequence twice: disk work settled between deliveries, and parked until the end (lagging index)
             gated = [[dict(d, gated=True) for d in q] for q in seqs]
-            scns = seqs + gated + [s for s in singles if s[-1]["kind"].startswith(("Scratchpad", "Transaction", "Register")) and s[-1]["parse"] == "ok"]
+            scns = seqs + gated + [s for s in singles if s[-1]["kind"].startswith(("Scratchpad", "Transaction", "Register")) and s[-1]["parse"] == "ok" and plain_pay(s[-1])]
+        elif prop == "C04":
+            # the proof-layout variants (position of the failing quote, contract answers, proof shapes) belong to C03
+            scns = [s for s in singles if plain_pay(s[-1])] + seqs[:: (1 if thorough else 7)]
         else:
             scns = singles + seqs[:: (1 if thorough else 7)]
         write_ndjson(scn_path, scns)
@@ -123,6 +133,16 @@ def run(prop, tier, replay=None):
     if prop == "C07" and not replay:
         concurrent_part(v, w)
     dl = [e for e in events if e["ev"] == "Deliver"]
+    for e in dl:
+        if e.get("undecodable"):
+            raise ToolError("the contract stub could not decode the calldata of %d eth_call(s) as verifyPayment(PaymentVerification[]): %s" % (e["undecodable"], json.dumps(e["d"])[:300]))
+    if prop == "C04":
+        # not demanded by the statement (it only says what must NOT get in): a record one byte below the store's size
+        # limit, or a parseable one for a key not held, is expected to be forwarded for validation exactly once
+        for e in dl:
+            d = e["d"]
+            if (d["path"] == "kadput" or e.get("viaKad")) and not d["heldIdx"] and d["parse"] in ("ok", "maxm1") and e["unverified"] != 1:
+                v.drift.append({"what": "RecordStore::put did not forward a record it does not hold for validation", "d": d, "res": e["res"], "unverified": e["unverified"]})
     relevant = [e for e in dl if (prop != "C03" or e["d"]["path"] == "client")]
     v.cov["evaluations"] = len(dl)
     v.cov["distinct_nontrivial"] = len(set(json.dumps([e["d"], e["aBeforeD"]], sort_keys=True) for e in relevant))
@@ -132,8 +152,13 @@ def run(prop, tier, replay=None):
     v.cov["samples"] = [{"d": e["d"], "res": e["res"], "beforeD": e["aBeforeD"], "afterD": e["aAfterD"], "gained": e["gained"]} for e in dl[:2] + dl[len(dl) // 2:len(dl) // 2 + 2]]
     v.cov["impl_stats"] = rep.get("stats")
     v.cov["contract_calls"] = sum(e["contractCalls"] for e in dl)
+    v.cov["contract_calls_compared_with_proof"] = sum(len(e.get("calls", [])) for e in dl)
+    v.cov["proof_layouts"] = len(set(json.dumps({k: e["d"]["pay"].get(k) for k in ("mode", "pos", "selfIdx", "shape", "edge")}, sort_keys=True) for e in dl if not e["d"]["pay"].get("none")))
+    v.cov["via_kad_then_validate"] = sum(1 for e in dl if e.get("viaKad"))
     v.cov["exhaustive"] = not replay and prop in ("C03", "C04")
-    v.assumptions = ["abstract attributes are realised by one concrete construction each (e.g. a forged signature = signed by another key; an expired quote = 3700 s old; a far payee = a peer absent from the routing table)",
+    v.assumptions = ["abstract attributes are realised by a few concrete constructions each (a forged quote = signed by another key, or another node's self-consistent quote under the claimed name; an expired quote = 3700 s old; "
+                     "a far payee = a peer absent from the routing table, a known peer far away, or the 20th / 21st closest known peer), placed at the own / first other / last other quote of the proof",
+                     "'confirmed by the payment contract' = every result verifyPayment returns is valid (see NodePut.tla PayBad); cases the statement leaves open (another payee's quote invalid, own quote valid with amount 0, proofs with 1/2/4/5 quotes) accept either outcome",
                      "deliveries are processed one at a time; concurrent validations of the same key are outside this check",
                      "the contract stub answers verifyPayment as prescribed; evmlib's ABI/HTTP client code is exercised for real"]
     return v.finish()
